@@ -341,7 +341,7 @@ def _call_oc(mon, case, ref, hyp):
         warnings.simplefilter("ignore")
         if case["form"] == "module":
             mon.stat("form_module")
-            return mon.lib("optimal_completion", lambda: LY.travelled(M.OptimalCompletion(**kw), case["R"], case["H"], len(case["ref"]))(ref, hyp),
+            return mon.lib("optimal_completion", lambda: LY.travelled(G.build_module(M.OptimalCompletion, kw, case), case["R"], case["H"], len(case["ref"]))(ref, hyp),
                            documented=documented)
         return mon.lib("optimal_completion", lambda: F.optimal_completion(ref, hyp, **kw),
                        documented=documented)
@@ -464,7 +464,7 @@ def _call_loss(mon, case, logits, ref, hyp):
         warnings.simplefilter("ignore")
         if case["form"] == "module":
             mon.stat("form_module")
-            return mon.lib(name, lambda: LY.travelled(M.HardOptimalCompletionDistillationLoss(**kw), case["R"], case["H"], len(case["ref"]))(logits, ref, hyp, warn=G.warn_flag(case)))
+            return mon.lib(name, lambda: LY.travelled(G.build_module(M.HardOptimalCompletionDistillationLoss, kw, case), case["R"], case["H"], len(case["ref"]))(logits, ref, hyp, warn=G.warn_flag(case)))
         return mon.lib(name, lambda: F.hard_optimal_completion_distillation_loss(logits, ref, hyp, warn=G.warn_flag(case), **kw))
 
 
